@@ -23,7 +23,7 @@ import pysam
 import gffutils
 import pyfaidx
 
-from src.gtf2db import convert_gtf_to_db
+from src.gtf2db import convert_gtf_to_db, dump_json_atomically
 from src.read_mapper import (
     DATA_TYPE_ALIASES,
     SUPPORTED_STRANDEDNESS,
@@ -702,8 +702,7 @@ def set_configs_directory(args):
     args.alignment_config_path = os.path.join(config_dir, 'alignment_config.json')
     for config_path in (args.db_config_path, args.index_config_path, args.bed_config_path, args.alignment_config_path):
         if not os.path.exists(config_path):
-            with open(config_path, 'w') as f_out:
-                json.dump({}, f_out)
+            dump_json_atomically({}, config_path)
 
 
 def set_additional_params(args):
